@@ -29,6 +29,21 @@ class Leaf:
     def val(self) -> str | None:
         return norm(self.value) if self.value is not None else None
 
+    def resolved(self, calls: bool = False) -> tuple[list[ast.stmt], ast.expr | None]:
+        """Executed statements and leaving value with path-local pure definitions substituted (normalize.resolve_path)."""
+        from .normalize import resolve_path
+        tail = [ast.Expr(value=self.value)] if self.value is not None else []
+        for t in tail:
+            ast.copy_location(t, self.value)
+        out = resolve_path(list(self.stmts) + tail, allow_calls=calls)
+        if tail:
+            return out[:-1], out[-1].value  # type: ignore[attr-defined]
+        return out, None
+
+    def rval(self, calls: bool = False) -> str | None:
+        v = self.resolved(calls)[1]
+        return norm(v) if v is not None else None
+
 
 class _Leave(Exception):
     def __init__(self, outcome: str, value: ast.expr | None) -> None:
@@ -37,13 +52,20 @@ class _Leave(Exception):
 
 
 class _AliasEval(Evaluator):
-    def __init__(self, assign: dict[str, Any], aliases: dict[str, ast.expr], order: list[str], call_hook=None) -> None:
+    def __init__(self, assign: dict[str, Any], aliases: dict[str, ast.expr], order: list[str], call_hook=None, sized=()) -> None:
         super().__init__(assign)
         self.aliases = aliases
         self.order = order
         self.call_hook = call_hook
+        self.sized = sized
 
     def ev(self, e: ast.AST) -> Any:
+        if self.sized and isinstance(e, (ast.Name, ast.Attribute)) and norm(e) in self.sized:
+            # truthiness of a list / tuple / dict the rule knows to be one: len(x) > 0
+            k = f"len({norm(e)})"
+            if k not in self.assign:
+                raise NeedAtom(k, e)
+            return self.assign[k] > 0
         if isinstance(e, ast.Name) and e.id in self.aliases and norm(e) not in self.assign:
             return self.ev(self.aliases[e.id])
         if self.call_hook is not None and isinstance(e, ast.Call) and norm(e) not in self.assign:
@@ -83,29 +105,40 @@ def decision_tree(
     domain: Callable[[str], tuple] | None = None,
     try_as_body: bool = False,
     call_hook: Callable[[ast.Call, dict[str, Any]], Any] | None = None,
+    sized: tuple = (),
+    resolve: bool | str = False,
 ) -> list[Leaf]:
     """Enumerate the leaves.  ``loop_hook(loop, assign)`` may interpret a loop: it returns
     None (loop is an opaque simple statement), or "return-false"/"return-true"... handled by caller
     through raising; by default loops are opaque."""
     leaves: list[Leaf] = []
-    dom = domain or (lambda k: (True, False))
+    dom = domain or (lambda k: (0, 1, 2) if k.startswith("len(") else (True, False))
 
     def run(assign: dict[str, Any]) -> None:
         aliases: dict[str, ast.expr] = {}
         executed: list[ast.stmt] = []
         order: list[str] = []
+        pe = None
+        if resolve:
+            from .normalize import PathEnv
+            pe = PathEnv(allow_calls=(resolve == "calls"))
 
         def evaluate(e: ast.expr) -> Any:
-            return _AliasEval(assign, aliases, order, call_hook).ev(e)
+            return _AliasEval(assign, aliases, order, call_hook, sized).ev(e)
 
         def block(ss: list[ast.stmt]) -> None:
             for st in ss:
                 if isinstance(st, ast.Expr) and isinstance(st.value, ast.Constant):
                     continue
                 if isinstance(st, ast.If):
-                    v = evaluate(st.test)
+                    v = evaluate(pe.apply(st.test) if pe is not None else st.test)
                     block(st.body if v else st.orelse)
-                elif isinstance(st, ast.Return):
+                    continue
+                if pe is not None and not isinstance(st, (ast.Try, ast.With)):
+                    st = pe.apply(st)  # type: ignore[assignment]
+                    if not isinstance(st, (ast.Return, ast.Raise)):
+                        pe.update(st)
+                if isinstance(st, ast.Return):
                     raise _Leave("return", st.value)
                 elif isinstance(st, ast.Raise):
                     raise _Leave("raise", st.exc)
@@ -181,11 +214,11 @@ def ret_bool(leaf: Leaf) -> bool | None:
     return None
 
 
-def eval_leaf_value(leaf: Leaf, call_hook=None) -> Any:
+def eval_leaf_value(leaf: Leaf, call_hook=None, sized=()) -> Any:
     """Evaluate the returned expression under the leaf's assignment (may raise NeedAtom)."""
     if leaf.value is None:
         return None
-    return _AliasEval(leaf.assign, {}, [], call_hook).ev(leaf.value)
+    return _AliasEval(leaf.assign, {}, [], call_hook, sized).ev(leaf.value)
 
 
 def bool_function(stmts: list[ast.stmt], preset: dict[str, Any] | None = None, **kw: Any) -> list[tuple[dict[str, Any], bool, Leaf]]:
@@ -193,7 +226,7 @@ def bool_function(stmts: list[ast.stmt], preset: dict[str, Any] | None = None, *
     returned expression is decided.  Result rows: (assignment, value, leaf)."""
     rows: list[tuple[dict[str, Any], bool, Leaf]] = []
     work = decision_tree(stmts, preset, **kw)
-    dom = kw.get("domain") or (lambda k: (True, False))
+    dom = kw.get("domain") or (lambda k: (0, 1, 2) if k.startswith("len(") else (True, False))
     while work:
         lf = work.pop()
         if lf.outcome == "fall":
@@ -203,7 +236,7 @@ def bool_function(stmts: list[ast.stmt], preset: dict[str, Any] | None = None, *
             rows.append((lf.assign, lf.outcome, lf))  # type: ignore[arg-type]
             continue
         try:
-            v = eval_leaf_value(lf, kw.get("call_hook"))
+            v = eval_leaf_value(lf, kw.get("call_hook"), kw.get("sized", ()))
             rows.append((lf.assign, v, lf))
         except NeedAtom as n:
             for val in dom(n.key):
